@@ -4,7 +4,8 @@
 (* independent parser (refwire).                                                *)
 EXTENDS Wire, Json
 
-CONSTANTS Mode      \* "trees" (C03), "mutants" (C02/C18: corrupted encodings), "noncanon" (C18: accepted non-canonical encodings)
+CONSTANTS Deep,     \* BOOLEAN: the thorough tier's larger case sets (more bases, byte-level corruptions, wider structures)
+          Mode      \* "trees" (C03), "mutants" (C02/C18: corrupted encodings), "noncanon" (C18: accepted non-canonical encodings)
 
 VARIABLE c          \* the case: a record
 vars == <<c>>
@@ -37,7 +38,7 @@ L2 == {[tag |-> 4325377, ty |-> 2, v |-> <<128,0,0,0>>], [tag |-> 4325378, ty |-
        [tag |-> 4325381, ty |-> 6, v |-> TRUE], [tag |-> 4325382, ty |-> 7, v |-> <<97, 98, 99>>], [tag |-> 4325383, ty |-> 8, v |-> B(9, 2)],
        [tag |-> 4325384, ty |-> 9, v |-> <<0,0,0,0,101,83,241,0>>], [tag |-> 4325385, ty |-> 10, v |-> <<0,0,14,16>>],
        [tag |-> 5505025, ty |-> 7, v |-> <<>>], [tag |-> 4325386, ty |-> 8, v |-> <<>>]}
-S1 == {[tag |-> 4325387, ty |-> 1, v |-> s] : s \in UNION {[1..n -> L2] : n \in 0..2}}
+S1 == {[tag |-> 4325387, ty |-> 1, v |-> s] : s \in UNION {[1..n -> L2] : n \in 0..(IF Deep THEN 3 ELSE 2)}}
 S1small == {[tag |-> 4325387, ty |-> 1, v |-> <<>>], [tag |-> 4325387, ty |-> 1, v |-> <<[tag |-> 4325382, ty |-> 7, v |-> <<97, 98, 99>>]>>],
             [tag |-> 4325387, ty |-> 1, v |-> <<[tag |-> 4325381, ty |-> 6, v |-> TRUE], [tag |-> 4325379, ty |-> 4, v |-> [neg |-> TRUE, mag |-> <<128, 1>>]]>>]}
 S2 == {[tag |-> 4325388, ty |-> 1, v |-> s] : s \in UNION {[1..n -> (S1small \cup {[tag |-> 4325383, ty |-> 8, v |-> B(9, 2)]})] : n \in 1..3}}
@@ -47,7 +48,8 @@ Big == {[tag |-> 4325383, ty |-> 8, v |-> B(8200, 5)], [tag |-> 4325382, ty |-> 
         [tag |-> 4325387, ty |-> 1, v |-> [i \in 1..40 |-> [tag |-> 4325382, ty |-> 7, v |-> B(250 + (i % 9), i)]]],
         [tag |-> 4325388, ty |-> 1, v |-> <<[tag |-> 4325387, ty |-> 1, v |-> [i \in 1..30 |-> [tag |-> 4325382, ty |-> 7, v |-> B(i % 19, i)]]],
                                             [tag |-> 4325383, ty |-> 8, v |-> B(9000, 7)]>>]}
-Trees == Leaves(Tags) \cup S1 \cup S2 \cup S3 \cup Big
+MoreTags == {4325377, 4325668, 4325669, 5505025, 5570559, 1, 16777215, 8388608, 4194304}
+Trees == Leaves(IF Deep THEN MoreTags ELSE Tags) \cup S1 \cup S2 \cup S3 \cup Big
 
 \* ---- corrupted encodings (C02): every single-header corruption and every truncation of a few base trees
 Bases == {[tag |-> 4325387, ty |-> 1, v |-> <<[tag |-> 4325382, ty |-> 7, v |-> <<97, 98, 99>>], [tag |-> 4325377, ty |-> 2, v |-> <<0,0,0,5>>]>>],
@@ -55,6 +57,9 @@ Bases == {[tag |-> 4325387, ty |-> 1, v |-> <<[tag |-> 4325382, ty |-> 7, v |-> 
                                               [tag |-> 4325381, ty |-> 6, v |-> TRUE]>>],
           [tag |-> 4325379, ty |-> 4, v |-> [neg |-> TRUE, mag |-> <<5>>]],
           [tag |-> 4325384, ty |-> 9, v |-> <<0,0,0,0,101,83,241,0>>]}
+L2ByType(ty) == CHOOSE l \in L2 : l.ty = ty
+AllTypes == [tag |-> 4325389, ty |-> 1, v |-> <<[tag |-> 4325388, ty |-> 1, v |-> [i \in 1..9 |-> L2ByType(i + 1)]], [tag |-> 4325387, ty |-> 1, v |-> <<>>]>>]
+DeepBases == Bases \cup L2 \cup S1small \cup {AllTypes}
 \* header offsets inside an encoding: every position where an item header starts
 RECURSIVE HeadersAt(_, _, _)
 HeadersAt(b, lo, hi) ==
@@ -74,7 +79,8 @@ Mutants ==
     \cup UNION {{SetBytes(b, h + 4, <<255, 255, 255, x>>) : x \in {255, 248}} : h \in HeadersAt(b, 1, Len(b))}
     \cup UNION {{SetBytes(b, h, U24(g)) : g \in {0, 1}} : h \in HeadersAt(b, 1, Len(b))}
     \cup {b \o <<0>>, b \o Zeros(8), b \o b}
-  : t \in Bases }
+    \cup (IF Deep THEN UNION {{SetBytes(b, i, <<x>>) : x \in {0, 1, 128, 255}} : i \in 1..Len(b)} ELSE {})     \* every byte forced to a boundary value
+  : t \in (IF Deep THEN DeepBases ELSE Bases) }
 
 \* ---- accepted non-canonical encodings (C18): non-zero padding, over-long big integers, odd booleans
 NonCanon ==
